@@ -256,8 +256,9 @@ static struct nv_pstate nv_program_updated_along(const struct nv_program* p, str
 /* reducer_t(A, b) = reduce(A, b) (src/program/util.cpp): removes linearly dependent equality rows -- A and b become other
  * values (havoc); ghost witnesses of the reduced pair */
 uint64_t nv_w_Ared, nv_w_bred;
+uint64_t nv_w_Ain, nv_w_bin;            /* ... and of the pair it was applied to */
 static struct nv_reducer nv_reduce(struct nv_val* A, struct nv_val* b)
-{ struct nv_reducer r; r.dummy = 0; *A = nv_fresh(); *b = nv_fresh(); nv_w_Ared = A->ver; nv_w_bred = b->ver; return r; }
+{ struct nv_reducer r; r.dummy = 0; nv_w_Ain = A->ver; nv_w_bin = b->ver; *A = nv_fresh(); *b = nv_fresh(); nv_w_Ared = A->ver; nv_w_bred = b->ver; return r; }
 /* the scaling routine, by its contract (target normalize) */
 double normalize(struct nv_val* A, struct nv_val* b, double min_norm);
 /* solver_state_t::update(Q, c, A, b, G, h): computes m_kkt only (src/program/state.cpp:23-63) */
@@ -379,7 +380,9 @@ __CPROVER_ensures(A->ver == NV_DIVS(__CPROVER_old(A->ver), __CPROVER_return_valu
  * (G, h) are each divided by their own common factor */
 #define NV_CONTRACT_program_ctor \
 __CPROVER_requires(NV_FRESH(self)) \
-__CPROVER_assigns(*self, nv_w_Ared, nv_w_bred) \
+__CPROVER_assigns(*self, nv_w_Ared, nv_w_bred, nv_w_Ain, nv_w_bin) \
+/* reduce() is applied to the equality pair (A, b) handed in, before anything is scaled */ \
+__CPROVER_ensures(nv_w_Ain == A.ver && nv_w_bin == b.ver) \
 __CPROVER_ensures(self->m_mufx == NV_M(NV_MIN_NORM, Q.ver, c.ver) && self->m_mufx >= NV_MIN_NORM) \
 __CPROVER_ensures(self->m_Q.ver == NV_DIVS(Q.ver, self->m_mufx) && self->m_c.ver == NV_DIVS(c.ver, self->m_mufx)) \
 __CPROVER_ensures(self->m_A.ver == NV_DIVS(nv_w_Ared, NV_M(NV_MIN_NORM, nv_w_Ared, nv_w_bred)) && self->m_b.ver == NV_DIVS(nv_w_bred, NV_M(NV_MIN_NORM, nv_w_Ared, nv_w_bred))) \
